@@ -104,6 +104,8 @@ def handler_recovers(ctx, f, tr, committer):
 
 
 def run(ctx):
+    from ._shared import ragged_opener_mode_agreement
+    ragged_opener_mode_agreement(ctx, 'D2')
     from ._shared import no_escape_from_finally
     no_escape_from_finally(ctx, 'D1')   # a failing append raises: no clean-up swallows the exception in flight
     committer = find_committer(ctx)
